@@ -97,7 +97,7 @@ def iccBits (enc : List Nat) : List Bool :=
   (v0Stream (w0.u64 enc.length) 41 (List.replicate 41 0) (enc.map fun b => (0, b))).toList
 
 /-- optional trailing tokens of the image part (old plans have none):
-`iccraw N byte*N` = an already ENCODED ICC byte stream; `spot ECIDX R G B S` = f16 bit patterns -/
+`xyb` = xyb_encoded image; `iccraw N byte*N` = an already ENCODED ICC byte stream; `spot ECIDX R G B S` = f16 bit patterns -/
 partial def imgOpts (h : ImgHdr) : P ImgHdr := do
   match (← get).head? with
   | some "iccraw" =>
@@ -105,6 +105,9 @@ partial def imgOpts (h : ImgHdr) : P ImgHdr := do
     let n ← nat
     let bytes ← rep n nat
     imgOpts { h with icc := some (iccBits bytes) }
+  | some "xyb" =>
+    kw "xyb"
+    imgOpts { h with xyb := true }
   | some "spot" =>
     kw "spot"
     let k ← nat
